@@ -59,23 +59,10 @@ class TLCResult:
     def tagged(self, tag):
         """PrintT tuples whose first element is the string `tag` (values may span lines)."""
         res = []
-        needle = '<<"' + tag + '"'
-        needle2 = '<< "' + tag + '"'
         out = self.out
-        i = 0
-        while True:
-            j1 = out.find(needle, i)
-            j2 = out.find(needle2, i)
-            js = [x for x in (j1, j2) if x >= 0]
-            if not js:
-                break
-            j = min(js)
-            if j > 0 and out[j - 1] != "\n":
-                i = j + 2
-                continue
-            v, k = _pv(out, j)
+        for m in re.finditer(r'^<< ?"' + re.escape(tag) + '"', out, flags=re.M):
+            v, _k = _pv(out, m.start())
             res.append(v)
-            i = k
         return res
 
     tagged_multiline = tagged
